@@ -89,8 +89,8 @@ func TestVerif_C10(t *testing.T) {
 
 	// --- grid ---
 	for n := 7; n <= 50; n++ {
-		for _, young := range []int{0, 1, n / 3} { // non-genesis members accepted late
-			if young >= n-6 {
+		for _, young := range []int{0, 1, n / 3} { // non-genesis members accepted late (also so many that fewer than 7 members are effective)
+			if young >= n {
 				continue
 			}
 			for _, edge := range []uint64{uint64(30 * time.Second), uint64(12 * time.Hour)} {
